@@ -44,9 +44,9 @@ type gate struct {
 }
 
 var (
-	mu      sync.Mutex
-	gates   = map[string]*gate{}
-	reading int
+	mu              sync.Mutex
+	gates           = map[string]*gate{}
+	reading         int
 	capWhileReading bool
 )
 
